@@ -9,7 +9,10 @@
 (*     [op:"list"|"last"|"agg", agg, val]   leaf: [val] / bare val (last value wins) /  *)
 (*                                   First Max Min Avg Count Sum(val) Flatten(val) Merge(val), *)
 (*                                   where val may itself be a Group (nested evaluation)       *)
-(* Items are integers VInt(i), or IdVal(l) = "the integer id() of the dict / list     *)
+(* A Limit(n) may also sit directly above the leaf, under the key levels (one quota per *)
+(* bucket); leaves also include Sample(n) and the two-value list [val, val * 10].       *)
+(* Items are integers VInt(i), words VStr(w) or pairs VTup(<<int, word>>) (orderable,   *)
+(* non-numeric: what Max / Min / First compare), or IdVal(l) = "the integer id() of the dict / list     *)
 (* spec object at level l" (the values that collide with accumulator-tree keys).      *)
 (* The spec nodes, aggregators and key specs of different levels are distinct objects. *)
 (*                                                                                   *)
@@ -29,7 +32,8 @@ EXTENDS GlomData
 
 CONSTANTS Fixes,     \* subset of {"stop", "skiptrace"}: candidate repairs applied to the
                      \* transcribed mechanism ({} = the code as it is)
-          Mutant     \* "none" | "carry" | "avgint" | "limit1" | "firstlast" | "curagg" | "rawbucket" | "nobase":
+          Mutant     \* "none" | "carry" | "avgint" | "limit1" | "firstlast" | "curagg" | "minnum" | "sampledrop" |
+                     \* "list2swap" | "rawbucket" | "nobase":
                      \* wrong mechanisms the laws must reject (vacuity check); the last two are
                      \* the mechanisms of glom before fd673fd / b769243
 
@@ -39,6 +43,23 @@ CONSTANTS Fixes,     \* subset of {"stop", "skiptrace"}: candidate repairs appli
 LimitL(n)          == [op |-> "limit", n |-> n]
 DictL(kf)          == [op |-> "dict", key |-> kf]
 LeafL(op, agg, vf) == [op |-> op, agg |-> agg, val |-> vf]
+SampleL(n)         == [op |-> "agg", agg |-> "Sample", val |-> "ident", n |-> n]     \* Sample(n)
+VTup(items)        == [k |-> "tup", items |-> items]                               \* a Python tuple item
+
+\* orderable non-numeric items: the words (TLC cannot index or compare strings: tables)
+Words     == {"a", "ab", "b", "ba"}
+WordRank  == [w \in Words |-> CASE w = "a" -> 1 [] w = "ab" -> 2 [] w = "b" -> 3 [] w = "ba" -> 4]
+WordLen   == [w \in Words |-> IF w \in {"a", "b"} THEN 1 ELSE 2]
+WordFirst == [w \in Words |-> IF w \in {"a", "ab"} THEN "a" ELSE "b"]
+\* Python's  a < b  on two items of the same kind (ints, strings, tuples compared item by item)
+RECURSIVE Lt(_, _), LexLt(_, _, _)
+Lt(a, b) ==
+  CASE a.k = "int" -> a.i < b.i
+    [] a.k = "str" -> WordRank[a.s] < WordRank[b.s]
+    [] a.k = "tup" -> LexLt(a.items, b.items, 1)
+LexLt(p, q, i) ==
+  IF i > Len(p) \/ i > Len(q) THEN Len(p) < Len(q)
+  ELSE IF p[i] = q[i] THEN LexLt(p, q, i + 1) ELSE Lt(p[i], q[i])
 
 IdVal(l)      == [k |-> "id", n |-> l]          \* id(spec node l): a Python int
 AggKey(l)     == [k |-> "aggobj", n |-> l]      \* the aggregator / Limit object itself as dict key
@@ -64,6 +85,8 @@ KeyApply(kf, x) ==
     [] kf = "const"   -> VInt(7)                                    \* lambda t: 7
     [] kf = "skip0"   -> IF x.i = 0 THEN SKIP ELSE VInt(x.i % 2)    \* SKIP-producing
     [] kf = "skipodd" -> IF x.i % 2 = 1 THEN SKIP ELSE x            \* SKIP-producing
+    [] kf = "len"     -> VInt(IF x.k = "str" THEN WordLen[x.s] ELSE Len(x.items))      \* len
+    [] kf = "first"   -> IF x.k = "str" THEN VStr(WordFirst[x.s]) ELSE x.items[1]      \* T[0]
 
 \* value functions
 ValApply(vf, x) ==
@@ -92,10 +115,10 @@ MergePairs(vf, x) == IF vf \in InnerKinds THEN InnerValue(vf, x).items ELSE KvPa
 
 RECURSIVE SumVals(_, _)
 SumVals(vf, xs) == IF xs = <<>> THEN 0 ELSE SumAddend(vf, Head(xs)) + SumVals(vf, Tail(xs))
-RECURSIVE MaxOf(_)
-MaxOf(xs) == IF Len(xs) = 1 THEN xs[1].i ELSE LET m == MaxOf(Tail(xs)) IN IF xs[1].i > m THEN xs[1].i ELSE m
-RECURSIVE MinOf(_)
-MinOf(xs) == IF Len(xs) = 1 THEN xs[1].i ELSE LET m == MinOf(Tail(xs)) IN IF xs[1].i < m THEN xs[1].i ELSE m
+RECURSIVE MaxOf(_, _, _)
+MaxOf(xs, i, m) == IF i > Len(xs) THEN m ELSE MaxOf(xs, i + 1, IF Lt(m, xs[i]) THEN xs[i] ELSE m)   \* max(xs)
+RECURSIVE MinOf(_, _, _)
+MinOf(xs, i, m) == IF i > Len(xs) THEN m ELSE MinOf(xs, i + 1, IF Lt(xs[i], m) THEN xs[i] ELSE m)   \* min(xs)
 RECURSIVE Dedup(_, _)
 Dedup(s, acc) ==
   IF s = <<>> THEN acc
@@ -118,23 +141,28 @@ RECURSIVE Survives(_, _, _)
 Survives(spec, l, x) ==
   LET L == spec[l] IN
   IF L.op = "dict" THEN KeyApply(L.key, x) # SKIP /\ Survives(spec, l + 1, x)
+  ELSE IF L.op = "limit" THEN Survives(spec, l + 1, x)
   ELSE IF L.op \in {"list", "last"} THEN ValApply(L.val, x) # SKIP
   ELSE TRUE
 
 \* Python reference of a leaf over the items routed to it, in encounter order
 RefLeaf(L, xs) ==
   CASE L.op = "list" -> DList([i \in 1..Len(xs) |-> ValApply(L.val, xs[i])])
+    [] L.op = "list2" ->                 \* [val, T * 10]: both values of every item, item by item
+         DList([i \in 1..(2 * Len(xs)) |-> IF i % 2 = 1 THEN ValApply(L.val, xs[(i + 1) \div 2])
+                                                        ELSE ValApply("x10", xs[i \div 2])])
     [] L.op = "last" -> IF xs = <<>> THEN VNone ELSE ValApply(L.val, xs[Len(xs)])
     [] L.op = "agg" ->
          CASE L.agg = "Count"   -> VInt(Len(xs))                       \* len(xs)
+           [] L.agg = "Sample"  -> DList(xs)       \* a sample of n out of no more than n values: all of them
            [] L.agg = "Sum"     -> VInt(SumVals(L.val, xs))            \* sum(val(x) for x in xs)
            [] L.agg = "Flatten" -> DList(ConcatMap(L.val, xs))              \* list(chain.from_iterable(..))
            [] L.agg = "Merge"   -> DDict(MergeAll(L.val, <<>>, xs))         \* d = {}; d.update(..) ...
            [] OTHER ->
                 IF xs = <<>> THEN VNone                                \* first / max / min / mean of nothing
                 ELSE CASE L.agg = "First" -> xs[1]
-                       [] L.agg = "Max"   -> VInt(MaxOf(xs))
-                       [] L.agg = "Min"   -> VInt(MinOf(xs))
+                       [] L.agg = "Max"   -> MaxOf(xs, 2, xs[1])
+                       [] L.agg = "Min"   -> MinOf(xs, 2, xs[1])
                        [] L.agg = "Avg"   -> Norm(SumVals("ident", xs), Len(xs))   \* sum(xs) / len(xs), a float
 
 \* bucketing: keys in order of first occurrence, each bucket holds the sub-result over
@@ -146,6 +174,7 @@ RefAt(spec, l, xs) ==
     LET ks == Dedup([i \in 1..Len(xs) |-> KeyApply(L.key, xs[i])], <<>>)
         Routed(key) == LET Here(x) == KeyApply(L.key, x) = key IN SelectSeq(xs, Here)
     IN DDict([j \in 1..Len(ks) |-> <<ks[j], RefAt(spec, l + 1, Routed(ks[j]))>>])
+  ELSE IF L.op = "limit" THEN RefAt(spec, l + 1, Take(xs, L.n))     \* per bucket: the first n routed here
   ELSE RefLeaf(L, xs)
 
 Body(spec)      == IF spec[1].op = "limit" THEN 2 ELSE 1
@@ -155,7 +184,15 @@ Kept(spec, xs)  == LET Surv(x) == Survives(spec, Body(spec), x) IN SelectSeq(Pas
 RefGroup(spec, xs) == RefAt(spec, Body(spec), Kept(spec, xs))     \* (declared RECURSIVE above)
 \* the reference is defined (the law constrains the result) unless a bare aggregator / bare
 \* value has received no item at all
-RefDefined(spec, xs) == spec[Body(spec)].op \in {"dict", "list"} \/ Kept(spec, xs) # <<>>
+\* ... and unless a Sample(n) leaf has been offered more than n values (then it is random)
+KeyPath(sp, x) == [l \in 1..Len(sp) |-> IF sp[l].op = "dict" THEN KeyApply(sp[l].key, x) ELSE VNone]
+SampleFits(spec, xs) ==
+  LET L == spec[Len(spec)]  ks == Kept(spec, xs) IN
+  L.op = "agg" /\ L.agg = "Sample" =>
+    \A i \in 1..Len(ks) : Cardinality({j \in 1..Len(ks) : KeyPath(spec, ks[j]) = KeyPath(spec, ks[i])}) <= L.n
+RefDefined(spec, xs) ==
+  /\ spec[Body(spec)].op \in {"dict", "list", "list2"} \/ Kept(spec, xs) # <<>>
+  /\ SampleFits(spec, xs)
 
 \* ================================================================================
 \* PART 2.  The mechanism: glom/grouping.py, glom/reduction.py (group mode)
@@ -183,9 +220,20 @@ AggEval(h, ta, l, L, x) ==
          ELSE IF ~has THEN R(DSet(h, ta, me, STOP), x)           \* tree[self] = STOP; return target
          ELSE R(h, STOP)
     [] L.agg = "Max" ->
-         IF ~has \/ x.i > DGet(h, ta, me).i THEN R(DSet(h, ta, me, x), x) ELSE R(h, DGet(h, ta, me))
-    [] L.agg = "Min" ->
-         IF ~has \/ x.i < DGet(h, ta, me).i THEN R(DSet(h, ta, me, x), x) ELSE R(h, DGet(h, ta, me))
+         IF ~has \/ Lt(DGet(h, ta, me), x) THEN R(DSet(h, ta, me, x), x) ELSE R(h, DGet(h, ta, me))
+    [] L.agg = "Min" ->                    \* (mutant "minnum": folds from float('inf'), numbers only)
+         IF Mutant = "minnum" /\ x.k # "int" THEN R(h, VExc("TypeError"))
+         ELSE IF ~has \/ Lt(x, DGet(h, ta, me)) THEN R(DSet(h, ta, me, x), x) ELSE R(h, DGet(h, ta, me))
+    [] L.agg = "Sample" ->                 \* tree[self] = [num_seen, sample]; reservoir of size n
+         LET h1  == IF has THEN h
+                    ELSE LET hs == Append(h, Cell("list", <<>>)) IN
+                         DSet(Append(hs, Cell("list", <<VInt(0), VRef(NewAddr(h))>>)), ta, me, VRef(NewAddr(hs)))
+             a   == DGet(h1, ta, me).a
+             smp == h1[a].items[2]
+             h2  == IF Len(h1[smp.a].items) < L.n /\ ~(Mutant = "sampledrop" /\ h1[a].items[1].i = 0)
+                    THEN [h1 EXCEPT ![smp.a].items = Append(@, x)]
+                    ELSE h1      \* full: replaces sample[random.randint(0, num_seen)] if < n (outside the law)
+         IN R([h2 EXCEPT ![a].items[1] = VInt(@.i + 1)], smp)
     [] L.agg = "Avg" ->                                           \* tree[self] = [sum, count]
          LET h1  == IF has THEN h
                     ELSE DSet(Append(h, Cell("list", <<VInt(0), VInt(0)>>)), ta, me, VRef(NewAddr(h)))
@@ -260,6 +308,14 @@ GEval(spec, h, ta, l, x) ==
              v   == ValApply(L.val, x)
          IN IF v = SKIP THEN RetAcc(h1, acc)
             ELSE R([h1 EXCEPT ![acc.a].items = Append(@, v)], acc)
+    [] L.op = "list2" ->                                           \* GROUP(), list branch, two value specs
+         LET sid == IdVal(l)
+             h1  == IF DHas(h, ta, sid) THEN h
+                    ELSE DSet(Append(h, Cell("list", <<>>)), ta, sid, VRef(NewAddr(h)))
+             acc == DGet(h1, ta, sid)
+             vs  == IF Mutant = "list2swap" THEN <<ValApply("x10", x), ValApply(L.val, x)>>
+                    ELSE <<ValApply(L.val, x), ValApply("x10", x)>>
+         IN R([h1 EXCEPT ![acc.a].items = @ \o vs], acc)
     [] L.op = "last" -> R(h, ValApply(L.val, x))                   \* T-expression / callable
     [] L.op = "agg"  -> AggEval(h, ta, l, L, x)
 
@@ -271,8 +327,8 @@ EvNew(spec, h, root) ==
   LET h1 == IF root = 0 THEN Append(h, Cell("dict", <<>>)) ELSE h     \* scope[ACC_TREE] = {}
       rt == IF root = 0 THEN NewAddr(h) ELSE root
       b  == spec[BaseLevel(spec)].op
-  IN IF b \in {"dict", "list"}
-     THEN [h |-> Append(h1, Cell(b, <<>>)),
+  IN IF b \in {"dict", "list", "list2"}
+     THEN [h |-> Append(h1, Cell(IF b = "dict" THEN "dict" ELSE "list", <<>>)),
            ev |-> [items |-> <<>>, root |-> rt, ret |-> VRef(NewAddr(h1)), stopped |-> FALSE]]
      ELSE [h |-> h1, ev |-> [items |-> <<>>, root |-> rt, ret |-> VNone, stopped |-> FALSE]]
 
@@ -353,12 +409,16 @@ Finish ==
 \* the regions of the two recorded findings (declarative, on spec and items only)
 NKeyLevels(sp) == Cardinality({l \in 1..Len(sp) : sp[l].op = "dict"})
 Leaf(sp)       == sp[Len(sp)]
-\* (F1) First() under a key level and some bucket is reached a second time
-BucketPath(sp, x) == [l \in 1..Len(sp) |-> IF sp[l].op = "dict" THEN KeyApply(sp[l].key, x) ELSE VNone]
+\* (F1) a node that answers STOP once it is full - First() (capacity 1) or a Limit(n) - sits
+\* under a key level and some bucket is offered more values than that
+BucketPath(sp, x) == KeyPath(sp, x)
+NestedLimit(sp) == {l \in (Body(sp) + 1)..Len(sp) : sp[l].op = "limit"}
 RegionFirstStop(sp, xs) ==
-  /\ Leaf(sp).op = "agg" /\ Leaf(sp).agg = "First" /\ NKeyLevels(sp) >= 1
-  /\ LET ks == Kept(sp, xs) IN
-     \E i, j \in 1..Len(ks) : i < j /\ BucketPath(sp, ks[i]) = BucketPath(sp, ks[j])
+  /\ NKeyLevels(sp) >= 1
+  /\ LET ks == Kept(sp, xs)
+         Offered(i) == Cardinality({j \in 1..Len(ks) : BucketPath(sp, ks[j]) = BucketPath(sp, ks[i])})
+     IN \/ Leaf(sp).op = "agg" /\ Leaf(sp).agg = "First" /\ \E i \in 1..Len(ks) : Offered(i) > 1
+        \/ \E l \in NestedLimit(sp) : \E i \in 1..Len(ks) : Offered(i) > sp[l].n
 \* (F2) an item that passes the first key level is dropped (SKIP) further down, where the
 \* enclosing level has already created its bucket
 RegionSkipTrace(sp, xs) ==
